@@ -28,6 +28,31 @@ type PartOpt struct {
 	// Unstable: the property itself is about run-to-run differences (determinism), so an observed
 	// failure is reported without demanding that it reproduces identically.
 	Unstable bool
+	// History > 0: the environment is deliberately reused from case to case (so cases also start
+	// from non-initial states). Each worker remembers up to History cases executed on its
+	// environment since it was created; a failure that does not reproduce on a fresh environment
+	// is re-executed together with the shortest suffix of that history that reproduces it, and
+	// the artefact is then {"_history": [...], "_case": c}.
+	History int
+}
+
+// histCase is the replay artefact of a failure that needs preceding cases on the same environment.
+type histCase[C any] struct {
+	History []C `json:"_history"`
+	Case    *C  `json:"_case"`
+}
+
+// runHist executes hist then c on one fresh environment; only the result of c counts.
+func runHist[C any, E any](check func(l *Local, env E, c C) *Fail, newEnv func() E, hist []C, c C) *Fail {
+	env := newEnv()
+	for _, h := range hist {
+		l := &Local{outcomes: map[uint64]struct{}{}}
+		if f := safely(check, l, env, h); f != nil {
+			return nil // a predecessor fails here although it passed originally: not this history
+		}
+	}
+	l := &Local{outcomes: map[uint64]struct{}{}}
+	return safely(check, l, env, c)
 }
 
 // GuardDir is set by the supervisor (main) for the child process; empty = no guarding.
@@ -84,6 +109,14 @@ func panicSite() string {
 // fresh environments and any divergence is a harness error, not a violation.
 func Product[C any, E any](r *Report, name string, opt PartOpt, gen func(yield func(C) bool), newEnv func() E, check func(l *Local, env E, c C) *Fail) {
 	Replayers[name] = func(raw json.RawMessage) (*Fail, error) {
+		var hc histCase[C]
+		if err := json.Unmarshal(raw, &hc); err == nil && hc.Case != nil {
+			f := runHist(check, newEnv, hc.History, *hc.Case)
+			if f != nil {
+				f.Msg = fmt.Sprintf("after %d preceding case(s) on the same emulator instance: %s", len(hc.History), f.Msg)
+			}
+			return f, nil
+		}
 		var c C
 		if err := json.Unmarshal(raw, &c); err != nil {
 			return nil, err
@@ -108,8 +141,9 @@ func Product[C any, E any](r *Report, name string, opt PartOpt, gen func(yield f
 	var wg sync.WaitGroup
 	locals := make([]*Local, nw)
 	type failed struct {
-		c C
-		f *Fail
+		c    C
+		f    *Fail
+		hist []C
 	}
 	var fmu sync.Mutex
 	fails := map[string]failed{}
@@ -121,21 +155,27 @@ func Product[C any, E any](r *Report, name string, opt PartOpt, gen func(yield f
 		go func(w int) {
 			defer wg.Done()
 			env := newEnv()
+			var hist []C
 			for batch := range ch {
 				for _, c := range batch {
 					if opt.Guard {
 						guardWrite(w, name, c)
+					}
+					if opt.History > 0 && len(hist) >= opt.History {
+						env, hist = newEnv(), hist[:0]
 					}
 					f := safely(check, l, env, c)
 					if f != nil {
 						fmu.Lock()
 						failCount[f.Sig]++
 						if _, ok := fails[f.Sig]; !ok && len(fails) < 200 {
-							fails[f.Sig] = failed{c, f}
+							fails[f.Sig] = failed{c, f, append([]C(nil), hist...)}
 						}
 						fmu.Unlock()
 						// the environment may be in an arbitrary state after a failure
-						env = newEnv()
+						env, hist = newEnv(), hist[:0]
+					} else if opt.History > 0 {
+						hist = append(hist, c)
 					}
 				}
 			}
@@ -202,19 +242,52 @@ func Product[C any, E any](r *Report, name string, opt PartOpt, gen func(yield f
 	for _, s := range sigs {
 		fc := fails[s]
 		stable := true
+		var histArt *histCase[C]
 		for i := 0; i < 5 && !opt.Unstable; i++ {
 			l := &Local{outcomes: map[uint64]struct{}{}}
 			f2 := safely(check, l, newEnv(), fc.c)
 			if f2 == nil || f2.Sig != fc.f.Sig || f2.Msg != fc.f.Msg {
 				stable = false
-				r.HarnessError("part %s: failure %q not reproducible on re-execution (%v vs %v)", name, s, fc.f, f2)
+				if i == 0 && f2 == nil && len(fc.hist) > 0 {
+					// the failure needs the state left behind by earlier cases on the same environment:
+					// find the shortest suffix of the worker's history that reproduces it
+					for k := 1; ; k *= 2 {
+						if k > len(fc.hist) {
+							k = len(fc.hist)
+						}
+						suffix := fc.hist[len(fc.hist)-k:]
+						ok := true
+						for j := 0; j < 5; j++ {
+							f3 := runHist(check, newEnv, suffix, fc.c)
+							if f3 == nil || f3.Sig != fc.f.Sig {
+								ok = false
+								break
+							}
+						}
+						if ok {
+							c := fc.c
+							histArt = &histCase[C]{History: append([]C(nil), suffix...), Case: &c}
+							fc.f.Msg = fmt.Sprintf("after %d preceding case(s) on the same emulator instance: %s", k, fc.f.Msg)
+							break
+						}
+						if k == len(fc.hist) {
+							break
+						}
+					}
+				}
+				if histArt == nil {
+					r.HarnessError("part %s: failure %q not reproducible on re-execution (%v vs %v)", name, s, fc.f, f2)
+				}
 				break
 			}
 		}
-		if stable {
+		if stable || histArt != nil {
 			var art any = fc.c
 			if fc.f.Case != nil {
 				art = fc.f.Case
+			}
+			if histArt != nil {
+				art = histArt
 			}
 			r.addViolation(name, fc.f, art)
 			r.mu.Lock()
